@@ -114,7 +114,10 @@ def materialize(cfg):
     inner = inner_graph(cfg["kind"], cfg["nparams"], cfg["bcast"], fail_items)
     inputs = {p: [list(v) for v in l] for p, l in zip(ps, lists)}
     if cfg["bcast"]:
-        inputs["cfg"] = {"$list": ["cfgval"]}
+        # the broadcast value is a list in half of the configurations and a TUPLE with a mutable member in the other half
+        # (cloning is about the whole value: an immutable container may still hold something an item can mutate)
+        tuple_form = (len(cfg["lens"]) + sum(cfg["lens"]) + len(cfg["kind"])) % 2 == 1
+        inputs["cfg"] = [{"$list": ["cfgval"]}, "k"] if tuple_form else {"$list": ["cfgval"]}
     order = cfg.get("order", "same")
     if order == "values-dict-reversed":
         inputs = dict(reversed(list(inputs.items())))
@@ -133,7 +136,7 @@ def single_results(inner, ps, cs, bcast, runner):
         h = H()
         ins = dict(combo)
         if bcast:
-            ins["cfg"] = ["cfgval"]
+            ins["cfg"] = ["cfgval"] if bcast is True else canon(bcast)
         p = T.set_async(inner, runner == "async")
         g = build(p, h)
         from ..dsl import run_async, run_sync
@@ -337,7 +340,7 @@ def run_shard(shard):
             continue
         inner, ps, inputs, cs = materialize(cfg)
         for runner in ("sync", "async"):
-            ref = single_results(inner, ps, cs, cfg["bcast"], runner)
+            ref = single_results(inner, ps, cs, inputs["cfg"] if cfg["bcast"] else False, runner)
             ks = [None] if runner == "sync" else [None, 1, 2]
             for k in ks:
                 key = (tuple(sorted((a, repr(b)) for a, b in cfg.items())), runner, k)
@@ -377,6 +380,6 @@ def replay(rep):
         return [v["message"] for v in acc.violations.values()]
     cfg = rep["config"]
     inner, ps, inputs, cs = materialize(cfg)
-    ref = single_results(inner, ps, cs, cfg["bcast"], rep["runner"])
+    ref = single_results(inner, ps, cs, inputs["cfg"] if cfg["bcast"] else False, rep["runner"])
     _, x = run_once(lambda ch: run_cfg(cfg, rep["runner"], rep["k"], ch), rep["choices"])
     return [m for _, m in judge(cfg, x, ref)]
